@@ -28,8 +28,138 @@ func tokenize(s string) []tok {
 		}
 		raw := string(z.Raw())
 		t := z.Token()
+		if t.Type == html.SelfClosingTagToken && !solidusIsSelfClosing(raw) {
+			// x/net reports every tag whose last byte before '>' is a solidus as self-closing; where
+			// the solidus ends an unquoted attribute value (<object data=x/>) HTML has a start tag
+			t.Type = html.StartTagToken
+		}
 		out = append(out, tok{Type: t.Type, Name: t.Data, Attr: t.Attr, Raw: raw})
 	}
+}
+
+// solidusIsSelfClosing runs the tag-name and attribute states of the HTML tokenizer (HTML Standard
+// 13.2.5.8 and 13.2.5.32-40) over the raw text of one start tag, as delimited by the reference
+// tokenizer, and reports whether the tag is emitted from the self-closing start tag state.
+func solidusIsSelfClosing(raw string) bool {
+	const (
+		tagName = iota
+		beforeAttrName
+		attrName
+		afterAttrName
+		beforeAttrValue
+		valueDQ
+		valueSQ
+		valueUnquoted
+		afterValueQuoted
+		selfClosing
+	)
+	ws := func(c byte) bool { return c == ' ' || c == '\t' || c == '\n' || c == '\f' || c == '\r' }
+	state := tagName
+	for i := 1; i < len(raw); {
+		c := raw[i]
+		switch state {
+		case tagName:
+			switch {
+			case ws(c):
+				state = beforeAttrName
+			case c == '/':
+				state = selfClosing
+			case c == '>':
+				return false
+			}
+			i++
+		case beforeAttrName:
+			switch {
+			case ws(c):
+				i++
+			case c == '/' || c == '>':
+				state = afterAttrName // reconsume
+			default:
+				state = attrName // (a leading '=' is part of the name)
+				i++
+			}
+		case attrName:
+			switch {
+			case ws(c) || c == '/' || c == '>':
+				state = afterAttrName // reconsume
+			case c == '=':
+				state = beforeAttrValue
+				i++
+			default:
+				i++
+			}
+		case afterAttrName:
+			switch {
+			case ws(c):
+				i++
+			case c == '/':
+				state = selfClosing
+				i++
+			case c == '=':
+				state = beforeAttrValue
+				i++
+			case c == '>':
+				return false
+			default:
+				state = attrName
+				i++
+			}
+		case beforeAttrValue:
+			switch {
+			case ws(c):
+				i++
+			case c == '"':
+				state = valueDQ
+				i++
+			case c == '\'':
+				state = valueSQ
+				i++
+			case c == '>':
+				return false
+			default:
+				state = valueUnquoted // reconsume
+			}
+		case valueDQ:
+			if c == '"' {
+				state = afterValueQuoted
+			}
+			i++
+		case valueSQ:
+			if c == '\'' {
+				state = afterValueQuoted
+			}
+			i++
+		case valueUnquoted:
+			switch {
+			case ws(c):
+				state = beforeAttrName
+				i++
+			case c == '>':
+				return false
+			default:
+				i++ // a solidus is an ordinary character of the value
+			}
+		case afterValueQuoted:
+			switch {
+			case ws(c):
+				state = beforeAttrName
+				i++
+			case c == '/':
+				state = selfClosing
+				i++
+			case c == '>':
+				return false
+			default:
+				state = beforeAttrName // reconsume
+			}
+		case selfClosing:
+			if c == '>' {
+				return true
+			}
+			state = beforeAttrName // reconsume
+		}
+	}
+	return false
 }
 
 func isTag(t tok) bool {
